@@ -73,13 +73,25 @@ pub mod routing {
         get_new_path(&location, base, new_locale, old, segs)
     }
 
+    /// (matched, remaining, params) of a successful match
+    pub type MatchRes = (String, String, Vec<(String, String)>);
+
+    pub struct MatchProbe {
+        /// I18nNestedRoute::match_nested(path): locale index and result
+        pub implr: Option<(Option<usize>, MatchRes)>,
+        /// oracle: the inner route tree alone (leptos_router), matched against the whole path under the default locale
+        pub bare: Option<MatchRes>,
+        /// oracle: for every locale whose name is exactly the first segment of the path, the inner route tree matched
+        /// against the rest of the path under that locale (`None` also when the name differs)
+        pub per_locale: Vec<Option<MatchRes>>,
+    }
+
     pub struct TreeProbe {
         /// RouteSegments as stored by `i18n_routing`, per locale in `get_all()` order
         pub tables: Vec<Vec<Vec<PathSegment>>>,
         /// `generate_routes()` of the I18nRoute
         pub routes: Vec<Vec<PathSegment>>,
-        /// `match_nested(path)`: (locale index, matched, remaining, params)
-        pub matcher: Box<dyn Fn(&str) -> Option<(Option<usize>, String, String, Vec<(String, String)>)>>,
+        pub matcher: Box<dyn Fn(&str) -> MatchProbe>,
     }
 
     /// builds the route both through `i18n_routing` (opaque result) and by the same steps with the concrete type,
@@ -105,16 +117,39 @@ pub mod routing {
             L::get_all().iter().map(|l| g.get(l).cloned().unwrap_or_default()).collect()
         };
         let matcher = Box::new(move |p: &str| {
-            let (m, remaining) = concrete.match_nested(p);
-            let (m2, remaining2) = opaque.match_nested(p);
-            assert_eq!(m.is_some(), m2.is_some());
-            assert_eq!(remaining, remaining2);
-            let (_, m) = m?;
-            let (_, m2) = m2?;
-            assert_eq!(m.as_matched(), m2.as_matched());
-            let loc = m.locale.map(|l| L::get_all().iter().position(|x| *x == l).unwrap());
-            let params = m.to_params().into_iter().map(|(k, v)| (k.to_string(), v)).collect();
-            Some((loc, m.as_matched().to_string(), remaining.to_string(), params))
+            let implr = (|| {
+                let (m, remaining) = concrete.match_nested(p);
+                let (m2, remaining2) = opaque.match_nested(p);
+                assert_eq!(m.is_some(), m2.is_some());
+                assert_eq!(remaining, remaining2);
+                let (_, m) = m?;
+                let (_, m2) = m2?;
+                assert_eq!(m.as_matched(), m2.as_matched());
+                let loc = m.locale.map(|l| L::get_all().iter().position(|x| *x == l).unwrap());
+                let params = m.to_params().into_iter().map(|(k, v)| (k.to_string(), v)).collect();
+                Some((loc, (m.as_matched().to_string(), remaining.to_string(), params)))
+            })();
+            // the inner route tree on its own: leptos_router's matcher is the oracle of the model
+            let inner = |l: L, q: &str| -> Option<MatchRes> {
+                set_current_route_locale(l);
+                let (m, remaining) = MatchNestedRoutes::match_nested(&concrete.route, q);
+                let r = m.map(|(_, m)| {
+                    let params = m.to_params().into_iter().map(|(k, v)| (k.to_string(), v)).collect();
+                    (m.as_matched().to_string(), remaining.to_string(), params)
+                });
+                reset_current_route_locale();
+                r
+            };
+            let bare = inner(L::default(), p);
+            let (first, rest) = match p.strip_prefix('/') {
+                Some(t) => {
+                    let i = t.find('/').unwrap_or(t.len());
+                    (Some(&t[..i]), &p[1 + i..])
+                }
+                None => (None, p),
+            };
+            let per_locale = L::get_all().iter().map(|l| if Some(l.as_str()) == first { inner(*l, rest) } else { None }).collect();
+            MatchProbe { implr, bare, per_locale }
         });
         TreeProbe { tables, routes, matcher }
     }
